@@ -54,6 +54,10 @@ def run(ctx):
     ctx.rule("R12.5", "explicit entries keep the order given: explicit_ignore_files() and the collection of --ignore / --filter patterns pass the "
                       "argument lists through order-preserving combinators only (no sort, dedup, hash container), because later patterns and files override earlier ones; "
                       "global sources found through git's configuration are tagged Git so that --no-vcs-ignore removes them (table shared with C14 R14.4)")
+    ctx.rule("R12.6", "dirs::ignores, filter by filter: each discovery flag applies its own predicate and only when given (no_project_ignore drops entries "
+                      "scoped under the origin, no_global_ignore keeps entries with a scope, no_vcs_ignore keeps entries without a VCS tag), the project-VCS "
+                      "filter keeps non-VCS entries and those of the project's VCS types, the git-global exclusion is applied only after a project git config "
+                      "was seen; relative --ignore-file paths are resolved against the origin")
     ctx.rule("R12.1", "independence: on every path through WatchexecFilterer::new (all values of the discovery flags) the explicit sources "
                       "--filter, --filter-file, --ignore, --exts, --fs-events reach the filterer unconditionally and --ignore-file entries reach it through "
                       "explicit_ignore_files() or dirs::ignores(); in dirs::ignores the explicit entries are appended after every flag-guarded filter, on every path")
@@ -165,6 +169,99 @@ def run(ctx):
                     and v[3].get("applies_to", ("",))[0] == "v" and v[3]["applies_to"][2] == "None":
                 okx = True
         ctx.require(okx, "R12.1", "explicit-entry-shape", "explicit entries are tagged applies_in: None, applies_to: None (global, any VCS)", ef.loc(ef.line))
+    except Skip:
+        pass
+
+    # ---- R12.6 the filters of dirs::ignores
+    try:
+        ig6 = body_of(ctx, "R12.6", "watchexec_cli::dirs::ignores")
+        cl_desc = {}
+        for c in facts.descendants(ig6):
+            if c.kind != "closure":
+                continue
+            r0 = thir.peel(thir.root(c))
+            d0 = pathx.desc(r0)
+            kind = None
+            if d0 in ("Not Option::map_or(Option::as_ref(ig.applies_in), False, closure)", "Not Option::is_some_and(Option::as_ref(ig.applies_in), closure)"):
+                inner = [pathx.desc(thir.peel(thir.root(x))) for x in facts.children(c)]
+                kind = "PROJ" if inner == ["Path::starts_with(p, ^origin)"] else "PROJ?"
+            elif d0 == "Option::is_some(ig.applies_in)":
+                kind = "GLOB"
+            elif d0 == "Option::is_none(ig.applies_to)":
+                kind = "VCS"
+            elif r0.get("k") == "match" and pathx.desc(r0["e"]) == "ig.applies_to":
+                arms = r0["arms"]
+                ok_ = len(arms) == 2 and thir.pat_str(arms[0]["p"]).startswith("Some(") and pathx.desc(arms[0].get("g")) == "ProjectType::is_vcs(pt)" \
+                    and pathx.desc(arms[0]["b"]) in ("slice::contains(^vcs_types, pt)",) and thir.pat_str(arms[1]["p"]) == "_" and pathx.desc(arms[1]["b"]) == "True"
+                kind = "VCSTYPE" if ok_ else "VCSTYPE?"
+            elif r0.get("k") == "un" and thir.peel(r0["e"]).get("k") == "match":
+                m0 = thir.peel(r0["e"])
+                pats = [thir.pat_str(a["p"]) for a in m0["arms"]]
+                vals = [pathx.desc(a["b"]) for a in m0["arms"]]
+                kind = "GITGLOBAL" if pathx.desc(m0["e"]) == "gig" and vals == ["True", "False"] and "Git" in pats[0] and "None" in pats[0] and pats[1] == "_" else "GITGLOBAL?"
+            if kind:
+                cl_desc[c.def_] = kind
+        for k_ in ("PROJ", "GLOB", "VCS", "VCSTYPE", "GITGLOBAL"):
+            n_k = sum(1 for v in cl_desc.values() if v == k_)
+            ctx.require(n_k >= (2 if k_ == "VCSTYPE" else 1) and not any(v == k_ + "?" for v in cl_desc.values()), "R12.6", "predicate:" + k_,
+                        "the %s predicate has its documented shape" % k_, ig6.loc(ig6.line), detail=str(sorted(cl_desc.values())),
+                        fail="a filter predicate of dirs::ignores changed shape (%s): the flag it belongs to removes a different set of ignore sources" % k_)
+        ps6 = [p for p in paths_of(ig6) if feasible(p)]
+        seen6 = set()
+        for p in ps6:
+            if p.out == "ret" and "from_residual" in (p.val or ""):
+                continue
+            fv = flag_values(p)
+            applied = []
+            for i, e in enumerate(p.ev):
+                if e[0] == "closure":
+                    nxt = [x for x in p.ev[i + 1:i + 2] if x[0] == "call"]
+                    if nxt and strip_generics(nxt[0][1]).endswith("Iterator::filter"):
+                        applied.append(cl_desc.get(e[1], "OTHER:" + e[1].split("::")[-1]))
+            other = {}
+            for e in p.ev:
+                if e[0] == "branch":
+                    core, neg = pathx.split_not(e[1])
+                    if core == "skip_git_global_excludes":
+                        other["skipgit"] = (e[2] != neg)
+                    elif core.replace("^", "") == "slice::is_empty(vcs_types)":
+                        other["novcs"] = (e[2] != neg)
+            key = ",".join("%s=%s" % (k[3:-7], "T" if fv[k] else "F") for k in sorted(fv)) + "".join(",%s=%s" % kv for kv in sorted(other.items()))
+            if key in seen6:
+                continue
+            seen6.add(key)
+            want = []
+            if fv.get("no_project_ignore") is False and other.get("novcs") is False:
+                want.append("VCSTYPE")
+            if fv.get("no_global_ignore") is False and other.get("skipgit") is True:
+                want.append("GITGLOBAL")
+            want.append("VCSTYPE")
+            if fv.get("no_project_ignore"):
+                want.append("PROJ")
+            if fv.get("no_global_ignore"):
+                want.append("GLOB")
+            if fv.get("no_vcs_ignore"):
+                want.append("VCS")
+            ctx.require(applied == want, "R12.6", "filters[%s]" % key, "with %s the filters applied are %s" % (key, want), ig6.loc(ig6.line), detail=str(applied),
+                        fail="with flags [%s] dirs::ignores applies the filters %s, documented is %s: a discovery flag removes sources it does not name, or keeps the ones it names" % (key, applied, want))
+        ctx.floor("R12.6", "flag / state combinations of dirs::ignores", len(seen6), 12)
+        # the git-global exclusion flag: starts false, is only ever set to true, inside the inspection of a project-level git entry
+        init6 = [pathx.desc(st["i"]) for st in thir.walk(thir.root(ig6)) if isinstance(st, dict) and st.get("k") == "let" and st["p"].get("k") == "bind"
+                 and st["p"].get("n") == "skip_git_global_excludes" and isinstance(st.get("i"), dict)]
+        sets6 = []
+        for c in [ig6] + facts.descendants(ig6):
+            for a in thir.find(thir.root(c), "assign"):
+                if pathx.desc(a["a"]).lstrip("^") == "skip_git_global_excludes":
+                    sets6.append((pathx.desc(a["b"]), c.def_ != ig6.def_))
+        ctx.require(init6 == ["False"] and sets6 == [("True", True)], "R12.6", "git-global-flag", "skip_git_global_excludes starts false and is set (to true) only while inspecting project entries",
+                    ig6.loc(ig6.line), detail="%s %s" % (init6, sets6),
+                    fail="the `project git config overrides the global excludes` switch no longer starts off / is set elsewhere (%s %s): the global git excludes are dropped without a project config, or kept with one" % (init6, sets6))
+        rel = [c for c in facts.descendants(ig6) if c.kind == "closure" and thir.peel(thir.root(c)).get("k") == "if" and pathx.if_parts(thir.peel(thir.root(c)))[0] == "Path::is_absolute(path)"]
+        okr = False
+        if len(rel) == 1:
+            _, t_, e_ = pathx.if_parts(thir.peel(thir.root(rel[0])))
+            okr = pathx.desc(t_) in ("Into::into(path)", "{..}") and "Path::join(^origin, path)" in pathx.desc(e_) + pathx.desc(thir.peel(e_).get("e") if isinstance(thir.peel(e_), dict) else None)
+        ctx.require(okr, "R12.6", "relative-ignore-file", "a relative --ignore-file path is resolved against the project origin, an absolute one is taken as is", ig6.loc(ig6.line))
     except Skip:
         pass
 
